@@ -155,6 +155,49 @@ theorem fprSpec_selDat (P : Moments.Row → Bool) (rows : List Moments.Row) (h :
   · next h0 => rw [h0]; simp
   · rfl
 
+
+/-! ### soft predictions: `mean_prediction` -/
+
+/-- `fairlearn.metrics.mean_prediction` on a slice: weighted mean of the predictions -/
+def meanPredSpec (ds : List Dat) : Rat := sumBy (fun d => d.pred * d.p0) ds / sumBy (·.p0) ds
+
+theorem meanpred_finiteOn {nsf : Nat} {frows : List (Frame.Row Dat)} (hv : C03.Valid nsf frows) :
+    FiniteOn (eval .meanpred) meanPredSpec frows := by
+  intro ds hne hsub
+  have hw : ∀ d ∈ ds, 0 < d.p0 := by
+    intro d hd
+    obtain ⟨r, hr, rfl⟩ := hsub d hd
+    exact hv.wpos r hr
+  have hpos := wsum_true_pos hw hne
+  have e1 : sumBy (·.p0) ds = Fairness.wsum (fun _ => true) ds := by simp [sumBy, Fairness.wsum]
+  simp only [eval, quot, meanPredSpec]
+  rw [Aggregate.div_fin_fin, if_neg (by rw [e1]; exact ne_of_gt hpos)]
+
+theorem sumBy_selDat (f : Dat → Rat) (P : Moments.Row → Bool) (rows : List Moments.Row) (h : List Rat) :
+    sumBy f (selDat P rows h) = (List.zipWith (fun r p => ind (P r) * f (datOf r p)) rows h).sum := by
+  unfold selDat sumBy
+  induction rows generalizing h with
+  | nil => simp
+  | cons r rs ih =>
+    cases h with
+    | nil => simp
+    | cons p ps =>
+      have := ih ps
+      simp only [List.zip_cons_cons, List.filter_cons, List.zipWith_cons_cons, List.sum_cons]
+      cases hP : P r
+      · simp only [Bool.false_eq_true, if_false, this, ind]; simp
+      · simp only [if_true, List.map_cons, List.sum_cons, this, ind]; simp
+
+/-- mean prediction (ANY rational predictions, e.g. expected predictions of a randomised classifier) of the
+    selected rows = the moments-side mean -/
+theorem meanPredSpec_selDat (P : Moments.Row → Bool) (rows : List Moments.Row) (h : List Rat)
+    (hl : h.length = rows.length) :
+    meanPredSpec (selDat P rows h) = meanOn P rows h := by
+  unfold meanPredSpec meanOn
+  rw [sumBy_selDat, sumBy_selDat]
+  simp only [datOf, mul_one]
+  rw [sum_ind_count P rows h hl, sum_ind_any P rows h]
+
 /-! ### validity of the frame -/
 
 theorem zip_filter_length (S : Moments.Row → Bool) (rows : List Moments.Row) (h : List Rat)
